@@ -85,3 +85,20 @@ def compose_id(short, version, rtype, bp, date, ctype, respin):
             out += "-" + bp[2].lower()
     out += "-%s%s.%d" % (date, COMPOSE_SUFFIX_DOC[ctype], respin)
     return out
+
+
+# documented architecture table (productmd.common.RPM_ARCHES as shipped; transcribed so that a damaged table is seen)
+RPM_ARCHES_DOC = ['aarch64', 'alpha', 'alphaev4', 'alphaev45', 'alphaev5', 'alphaev56', 'alphaev6', 'alphaev67', 'alphaev68', 'alphaev7',
+                  'alphapca56', 'amd64', 'arm64', 'armhfp', 'armv5tejl', 'armv5tel', 'armv5tl', 'armv6hl', 'armv6l', 'armv7hl', 'armv7hnl',
+                  'armv7l', 'armv8hl', 'armv8l', 'athlon', 'geode', 'i386', 'i486', 'i586', 'i686', 'ia32e', 'ia64', 'loongarch64', 'mips',
+                  'mips64', 'mips64el', 'mipsel', 'ppc', 'ppc64', 'ppc64iseries', 'ppc64le', 'ppc64p7', 'ppc64pseries', 'riscv128', 'riscv32',
+                  'riscv64', 's390', 's390x', 'sh3', 'sh4', 'sh4a', 'sparc', 'sparc64', 'sparc64v', 'sparcv8', 'sparcv9', 'sparcv9v', 'x86_64',
+                  'src', 'nosrc', 'noarch']
+BINARY_ARCHES_DOC = [a for a in RPM_ARCHES_DOC if a not in ("src", "nosrc")]
+IMAGE_TYPES_DOC = ['appx', 'boot', 'cd', 'docker', 'dvd', 'dvd-debuginfo', 'dvd-ostree', 'dvd-ostree-osbuild', 'ec2', 'fex', 'kvm', 'live',
+                   'live-osbuild', 'liveimg-squashfs', 'netinst', 'ociarchive', 'p2v', 'qcow', 'qcow2', 'raw', 'raw-xz', 'rescue', 'rhevm-ova',
+                   'tar-gz', 'vagrant-hyperv', 'vagrant-libvirt', 'vagrant-virtualbox', 'vagrant-vmware-fusion', 'vdi', 'vhd-compressed',
+                   'vmdk', 'vpc', 'vsphere-ova']
+IMAGE_FORMATS_DOC = ['appx', 'erofs', 'erofs.gz', 'erofs.xz', 'iso', 'liveimg.squashfs', 'ociarchive', 'qcow', 'qcow2', 'raw', 'raw.xz',
+                     'rhevm.ova', 'squashfs', 'squashfs.gz', 'squashfs.xz', 'tar.gz', 'tar.xz', 'vagrant-hyperv.box', 'vagrant-libvirt.box',
+                     'vagrant-virtualbox.box', 'vagrant-vmware-fusion.box', 'vdi', 'vhd', 'vhd.gz', 'vhd.xz', 'vmdk', 'vsphere.ova']
